@@ -833,26 +833,27 @@ class ArgumentParser(ParserDeprecations, ActionsContainer, ArgumentLinking, argp
                             value = action.serialize(value, dump_kwargs=dump_kwargs)
                     cfg.update(value, action_dest)
 
-    def _dump_delete_default_entries(self, subcfg, subdefaults):
+    def _dump_delete_default_entries(self, subcfg, subdefaults, prefix=""):
         for key in list(subcfg.keys()):
             if key in subdefaults:
                 val = subcfg[key]
                 default = subdefaults[key]
-                class_object_val = None
-                if is_subclass_spec(val):
-                    if val["class_path"] != default.get("class_path"):
-                        with parser_context(parent_parser=self):
-                            parser = ActionTypeHint.get_class_parser(val["class_path"])
-                        default = {"init_args": parser.get_defaults().as_dict()}
-                    class_object_val = val
-                    val = val.get("init_args")
-                    default = default.get("init_args")
                 if val == default:
                     del subcfg[key]
+                elif is_subclass_spec(val):
+                    with parser_context(parent_parser=self):
+                        parser = ActionTypeHint.get_class_parser(val["class_path"])
+                    if not isinstance(default, dict) or val["class_path"] != default.get("class_path"):
+                        default = {"init_args": parser.get_defaults().as_dict()}
+                    init_args = val.get("init_args")
+                    if isinstance(init_args, dict) and isinstance(default.get("init_args"), dict):
+                        parser._dump_delete_default_entries(init_args, default["init_args"])
+                        if init_args == {}:
+                            del val["init_args"]
                 elif isinstance(val, dict) and isinstance(default, dict):
-                    self._dump_delete_default_entries(val, default)
-                    if class_object_val and class_object_val.get("init_args") == {}:
-                        del class_object_val["init_args"]
+                    action = _find_action(self, prefix + key)
+                    if action is None or isinstance(action, (_ActionSubCommands, _ActionConfigLoad)):
+                        self._dump_delete_default_entries(val, default, prefix + key + ".")
 
     def save(
         self,
